@@ -507,6 +507,10 @@ pub fn decode<T: ClaimsTarget>(
     };
     let header = model::header_of(idx);
     let claims_map = model::claims_of(idx);
+    if model::valid_under(idx) == model::MALFORMED_SIGNATURE {
+        model::check_hint(call_no, false);
+        return Err(new_error(ErrorKind::Base64("Invalid byte".to_string())));
+    }
     let mut ok_sym = true;
     if validation.validate_signature && validation.algorithms.is_empty() {
         ok_sym = false; // MissingAlgorithm
